@@ -16,7 +16,7 @@ ASSUMPTIONS = ["reference: closed form for the group lasso; bisection on the mon
 EVAL_COUNTER = "rows"
 REQUIRED = {"quick": {"gl_rows_zeroed": 1500, "gl_rows_shrunk": 1500, "hier_rows_compared": 5000, "hier_rows_killed": 300,
                       "hier_rows_clipped_active": 500, "hier_rows_zero_in_scope": 50, "group_calls_checked": 1000,
-                      "insitu_calls": 500, "partitions_exhaustive": 52 + 15 + 5 + 2 + 1},
+                      "insitu_calls": 500, "model_steps_feasibility_checked": 60, "model_steps_alpha_zero": 8, "partitions_exhaustive": 52 + 15 + 5 + 2 + 1},
             "thorough": {"hier_rows_compared": 300000, "gl_rows_shrunk": 100000, "insitu_calls": 10000}}
 SHARD_TIMEOUT = {"quick": 900, "thorough": 5400}
 
@@ -46,6 +46,41 @@ class State:
         self.mode = "direct"
         self.rng = np.random.default_rng(1)
         self.tap = _prox.ProxTap(ctx, self.on_call)
+        # the step as the models apply it: whatever route _update_weights takes (operator called, or short-cut for a
+        # null threshold), the pair it leaves behind is feasible - every hidden weight of a feature / group bounded by
+        # M times the norm of its skip weights
+        from ..attach import Patcher
+        from gemclus.sparse._mlp_sparse import SparseMLPModel
+        self.patcher = Patcher()
+        orig = vars(SparseMLPModel)["_update_weights"]
+        chk = ctx.guard(self.check_feasible, "model-step-feasible")
+
+        def _update_weights(self_, weights, gradients):
+            res = orig(self_, weights, gradients)
+            chk(self_)
+            return res
+        _update_weights.__wrapped__ = orig
+        self.patcher.setattr(SparseMLPModel, "_update_weights", _update_weights)
+
+    def check_feasible(self, model):
+        ctx = self.ctx
+        W1, Ws, M = np.asarray(model.W1_, dtype=float), np.asarray(model.W_skip_, dtype=float), float(model.M)
+        if not (np.all(np.isfinite(W1)) and np.all(np.isfinite(Ws))):
+            ctx.count("model_steps_nonfinite_skipped")
+            return
+        ctx.count("model_steps_feasibility_checked")
+        if float(model.alpha) == 0:
+            ctx.count("model_steps_alpha_zero")
+        groups = model.groups_
+        units = [[j] for j in range(Ws.shape[0])] if groups is None else [list(g) for g in groups]
+        for g in units:
+            bound = M * float(np.linalg.norm(Ws[g]))
+            worst = float(np.max(np.abs(W1[g])))
+            if worst > bound * (1 + 1e-9) + 1e-12 * max(1.0, float(np.max(np.abs(W1)))):
+                ctx.violation("hier-prox", "model-step-leaves-infeasible-pair",
+                              observed={"unit": g, "max_hidden": worst, "M_times_skip_norm": bound, "alpha": float(model.alpha), "M": M},
+                              expected="max |W1[unit]| <= M * ||W_skip[unit]||")
+                return
 
     def on_call(self, kind, args, kwargs, res, depth):
         self.ctx.count("calls")
@@ -56,6 +91,7 @@ class State:
         self.ctx.count("rows", self.ctx.counters.get("gl_rows", 0) + self.ctx.counters.get("hier_rows", 0) - before)
 
     def close(self):
+        self.patcher.restore()
         self.tap.close()
 
 
@@ -156,10 +192,14 @@ def run_case(case, ctx, st):
         params["learning_rate"] = float(10 ** rng.uniform(-2.5, -0.5))
         if isinstance(params.get("gemini"), (str, type(None))) and params.get("gemini") in ("wasserstein_ova", "wasserstein_ovo"):
             params["gemini"] = "mmd_ova"
+        if name in ("SparseMLPModel", "SparseMLPMMD") and rng.random() < 0.35:
+            # no penalty at all, a binding hierarchy constant: the step is then the projection onto the feasible set
+            params["alpha"] = 0.0
+            params["M"] = float([0.0, 0.1, 1.0][int(rng.integers(0, 3))])
         est = gen.build_estimator(name, params)
         ctx.count("fits")
         try:
-            if case["i"] % 3 == 0:
+            if case["i"] % 3 == 0 and params.get("alpha", 0.1) > 0:
                 est.set_params(alpha=max(params.get("alpha", 0.1), 0.05))
                 est.path(X, alpha_multiplier=float(rng.uniform(1.5, 3.0)), min_features=int(rng.integers(1, d)),
                          max_patience=2)
